@@ -597,6 +597,10 @@ std::string do_save3(const Case& c) {
 					ps->psysDataRef.Clear();
 				}
 	}
+	// kids=k: an edited model - k more nodes under the root (a node with many children)
+	if (!c.get("kids").empty())
+		for (long i = 0; i < c.geti("kids"); ++i)
+			nif.AddNode("kid" + std::to_string(i), MatTransform());
 	// perturb=1: an edited model - every shape's positions and texture coordinates are set through the API to values
 	// that no 16-bit float holds exactly (what an editor does after loading; freshly loaded data is half-exact)
 	if (c.geti("perturb") == 1) {
@@ -882,6 +886,25 @@ std::string do_resave(const Case& c) {
 	// loose=k order=rev|fwd|mix: the file under test is the sample plus a chain of k unreferenced nodes (each lists the
 	// previous one as its child), stored child-before-parent (rev), parent-before-child (fwd) or alternating (mix),
 	// written raw and loaded again - a loadable file whose pruning needs several deletions that enable each other
+	// kids=k: the file under test is the sample with k more nodes under its root (a node with many children: the
+	// reordering of a default save must leave sibling order alone once the kinds are grouped), written raw and loaded again
+	if (!c.get("kids").empty()) {
+		long k = c.geti("kids");
+		for (long i = 0; i < k; ++i)
+			nif.AddNode("kid" + std::to_string(i), MatTransform());
+		NifSaveOptions rawo;
+		rawo.optimize = false;
+		rawo.sortBlocks = false;
+		std::stringstream ss;
+		if (nif.Save(ss, rawo) != 0)
+			return os.str() + " kidsave=FAIL";
+		std::stringstream in(ss.str());
+		nif.Clear();
+		int l2 = nif.Load(in);
+		os << " kidload=" << l2;
+		if (l2 != 0)
+			return os.str();
+	}
 	// tex=<hex>: the file under test is the sample with this (messy) path in the first texture slots of every shape,
 	// written raw and loaded again (Load cleans texture paths: the cleaned form must be a fixed point)
 	if (!c.get("tex").empty()) {
